@@ -108,7 +108,7 @@ def describe(body, op, depth=30):
                 # a promoted constant value such as &Some(b'='): describe what the promoted body builds
                 try:
                     pv = describe_place(pb, {"l": 0, "p": []}, depth - 1)
-                    if pv.kind in ("agg", "const", "conststr"):
+                    if pv.kind in ("agg", "const", "conststr") or (pv.kind == "call" and str(pv.v).endswith("RangeInclusive::new") and all(a.kind == "const" for a in pv.args)):
                         return pv
                 except Exception:
                     pass
@@ -328,6 +328,18 @@ def _eval(val, var, v, preds):
     if val.kind == "call" and val.v in preds and val.args:
         a = _eval(val.args[0], var, v, preds)
         return None if a is None else bool(preds[val.v] >> a & 1)
+    if val.kind == "call" and str(val.v).split("::")[-1] == "contains" and ("RangeInclusive" in str(val.v) or "ops::Range" in str(val.v) or "range::Range" in str(val.v)) and len(val.args) == 2:
+        # `(lo..=hi).contains(&x)` / `(lo..hi).contains(&x)` with constant bounds
+        r, x = val.args
+        xv = _eval(x, var, v, preds)
+        if xv is not None and r.kind == "call" and str(r.v).endswith("RangeInclusive::new") and len(r.args) == 2:
+            lo, hi = _eval(r.args[0], var, v, preds), _eval(r.args[1], var, v, preds)
+            if lo is not None and hi is not None:
+                return lo <= xv <= hi
+        if xv is not None and r.kind == "agg" and str(r.v) in ("RangeInclusive", "Range") and len(r.args) >= 2:
+            lo, hi = _eval(r.args[0], var, v, preds), _eval(r.args[1], var, v, preds)
+            if lo is not None and hi is not None:
+                return (lo <= xv <= hi) if str(r.v) == "RangeInclusive" else (lo <= xv < hi)
     return None
 
 
@@ -467,3 +479,31 @@ def expand_locals(body, text, rounds=3):
             break
         text = text[: mm.start()] + repr(describe_place(body, {"l": int(mm.group(1)), "p": []})) + text[mm.end():]
     return text
+
+
+
+def upper_bound(gs, val):
+    """smallest inclusive upper bound of `val` established by the dominating guards `gs` (x <= K, x < K, K >= x, x == K,
+    `(lo..=hi).contains(&x)`), or None"""
+    best = None
+
+    def take(k):
+        nonlocal best
+        if k is not None and (best is None or k < best):
+            best = k
+
+    for g in gs:
+        if g.a is None:
+            continue
+        if g.b is not None:
+            if g.op in ("Le", "Lt") and g.b.kind == "const" and g.a.same(val):
+                take(g.b.v - (1 if g.op == "Lt" else 0))
+            elif g.op in ("Ge", "Gt") and g.a.kind == "const" and g.b.same(val):
+                take(g.a.v - (1 if g.op == "Gt" else 0))
+            elif g.op == "Eq" and g.b.kind == "const" and g.a.same(val):
+                take(g.b.v)
+        elif g.op == "True" and g.a.kind == "call" and str(g.a.v).split("::")[-1] == "contains" and "Range" in str(g.a.v) and len(g.a.args) == 2 and g.a.args[1].same(val):
+            r = g.a.args[0]
+            if r.kind in ("call", "agg") and len(r.args) >= 2 and all(x.kind == "const" for x in r.args[:2]):
+                take(r.args[1].v - (0 if "Inclusive" in str(r.v) else 1))
+    return best
